@@ -17,6 +17,7 @@ sys.path.insert(0, os.path.join(os.path.dirname(os.path.abspath(__file__)), ".."
 import vlib  # noqa: E402
 
 REC = {"P0010", "P0013"}
+UNSUPPORTED_KINDS = {"struct+alias", "struct+alias-lowercase-refs"}   # an alias of a structure type: P9999 on the pinned commit, cyclic or not
 
 
 import graphreal  # noqa: E402
@@ -69,9 +70,11 @@ def main():
             continue
         codes = set(d["code"] for d in r.get("analyze_diags", []))
         said = bool(codes & REC)
-        if g["cyclic"] and not said and codes == {"P9999"}:
+        if g["cyclic"] and not said and codes == {"P9999"} and kind in UNSUPPORTED_KINDS:
             # 'capability not implemented' (an alias of a structure type is not supported at all, cyclic or not):
-            # the unit is outside what the analyzer claims to handle; counted, not judged
+            # the unit is outside what the analyzer claims to handle; counted, not judged.  Only the realisations whose
+            # ACYCLIC units get the same answer are excused: anywhere else "not implemented" for a cycle is a cycle that
+            # was not reported as recursive (seeded change C07-8: a self-loop of an alias-style declaration)
             st["unsupported"] = st.get("unsupported", 0) + 1
         elif g["cyclic"] and not said:
             what = "accepted" if r.get("analyze_ok") else "other-code:" + ",".join(sorted(codes))
@@ -79,14 +82,14 @@ def main():
         elif not g["cyclic"] and said:
             rep.add("acyclic-reported-as-recursive:%s" % kind, labels=labels, detail={"graph": g, "codes": sorted(codes)}, replay=replay)
         elif not g["cyclic"] and not r.get("analyze_ok"):
-            if codes == {"P9999"}:
+            if codes == {"P9999"} and kind in UNSUPPORTED_KINDS:
                 st["unsupported"] = st.get("unsupported", 0) + 1
             else:
                 rep.add("acyclic-rejected:%s:%s" % (kind, ",".join(sorted(codes))), labels=labels, detail={"graph": g}, replay=replay)
     # vacuity guard: a realisation that the analyzer mostly answers with "not implemented" decides nothing
     for kind, st in stats.items():
         total = st["cyclic"] + st["acyclic"]
-        if kind != "struct+alias" and kind != "struct+alias-lowercase-refs" and st.get("unsupported", 0) > total // 2:
+        if kind not in UNSUPPORTED_KINDS and st.get("unsupported", 0) > total // 2:
             raise vlib.ToolError("realisation %s: %d of %d units are answered 'not implemented' (P9999): the realisation is vacuous" % (kind, st["unsupported"], total))
     cov["graphs"] = len(graphs)
     cov["units_analysed"] = len(cases)
